@@ -1,17 +1,24 @@
-(* C12 — which `if` conditions make the analyser treat the body as type-checking-only
-   (internal/analyzer/module_analyzer.go:764-814, isTypeCheckingCondition / containsTypeChecking), against what
-   Python does with the body at run time, where typing.TYPE_CHECKING is False.
+(* C12 — which `if` / `elif` conditions make the analyser treat a branch as type-checking-only
+   (internal/analyzer/module_analyzer.go: isTypeCheckingCondition, isNotTypeCheckingCondition, runtimeValue,
+   containsTypeChecking, walkStatements), against what Python does with the branch at run time, where
+   typing.TYPE_CHECKING is False.
 
-   The conditions are those built from the names TYPE_CHECKING / typing.TYPE_CHECKING, other names with a known
-   boolean value, not / and / or and ==, !=, is, is not between such operands. *)
+   The conditions are those built from the names TYPE_CHECKING / typing.TYPE_CHECKING, the literals True / False,
+   other names (whose value the analyser cannot know; here they carry the boolean they have at run time), not / and /
+   or and ==, !=, is, is not between such operands.  Parentheses are not part of the syntax here: the code looks
+   through them (runtimeValue, case "parenthesized_expression").
+
+   State of the code modelled: after fix baf3931 (F63).  Before it every and/or/comparison that mentioned
+   TYPE_CHECKING was taken for a guard of a type-checking-only body. *)
 From Coq Require Import List Bool.
 Import ListNotations.
 
 Inductive gexpr :=
   | GTc                          (* TYPE_CHECKING            : parser.NodeName *)
   | GTcAttr                      (* typing.TYPE_CHECKING     : parser.NodeAttribute *)
-  | GFlag (b : bool)             (* a name bound to the boolean b *)
-  | GNot (e : gexpr)             (* not e                    : parser.NodeUnaryOp *)
+  | GFlag (b : bool)             (* a name bound to the boolean b (unknown to the analyser) *)
+  | GConst (b : bool)            (* True / False             : parser.NodeConstant *)
+  | GNot (e : gexpr)             (* not e                    : generic node "not_operator" *)
   | GAnd (a b : gexpr)           (* a and b                  : parser.NodeBoolOp *)
   | GOr (a b : gexpr)            (* a or b                   : parser.NodeBoolOp *)
   | GEq (a b : gexpr)            (* a == b, a is b           : parser.NodeCompare *)
@@ -22,6 +29,7 @@ Fixpoint eval_guard (e : gexpr) : bool :=
   match e with
   | GTc | GTcAttr => false
   | GFlag b => b
+  | GConst b => b
   | GNot a => negb (eval_guard a)
   | GAnd a b => eval_guard a && eval_guard b
   | GOr a b => eval_guard a || eval_guard b
@@ -29,31 +37,88 @@ Fixpoint eval_guard (e : gexpr) : bool :=
   | GNe a b => negb (Bool.eqb (eval_guard a) (eval_guard b))
   end.
 
-(* an import in the body is a runtime import iff the body is executed *)
+(* an import in the body of `if e:` is a runtime import iff the body is executed; one in the elif / else branches
+   iff the body is not *)
 Definition spec_tc (e : gexpr) : bool := negb (eval_guard e).
+Definition spec_tc_else (e : gexpr) : bool := eval_guard e.
 
-(* containsTypeChecking (module_analyzer.go:794-814): the name occurs anywhere in the expression *)
+(* containsTypeChecking: the name occurs anywhere in the expression *)
 Fixpoint containsTypeChecking (e : gexpr) : bool :=
   match e with
   | GTc | GTcAttr => true
-  | GFlag _ => false
+  | GFlag _ | GConst _ => false
   | GNot a => containsTypeChecking a
   | GAnd a b | GOr a b | GEq a b | GNe a b => containsTypeChecking a || containsTypeChecking b
   end.
 
-(* isTypeCheckingCondition (module_analyzer.go:764-792): the bare name, the attribute, or a boolean
-   operation / comparison that mentions it; nothing else (in particular not `not ...`) *)
-Definition isTypeCheckingCondition (e : gexpr) : bool :=
+(* runtimeValue: the condition with TYPE_CHECKING = False in three-valued logic; conditionUnknown = None,
+   conditionFalse = Some false, conditionTrue = Some true *)
+Fixpoint runtimeValue (e : gexpr) : option bool :=
   match e with
-  | GTc | GTcAttr => true
-  | GAnd _ _ | GOr _ _ | GEq _ _ | GNe _ _ => containsTypeChecking e
-  | GFlag _ | GNot _ => false
+  | GTc | GTcAttr => Some false
+  | GFlag _ => None
+  | GConst b => Some b
+  | GNot a => match runtimeValue a with Some v => Some (negb v) | None => None end
+  | GAnd a b =>
+      match runtimeValue a, runtimeValue b with
+      | Some false, _ | _, Some false => Some false          (* decided by a false operand *)
+      | Some _, Some _ => Some true
+      | _, _ => None
+      end
+  | GOr a b =>
+      match runtimeValue a, runtimeValue b with
+      | Some true, _ | _, Some true => Some true             (* decided by a true operand *)
+      | Some _, Some _ => Some false
+      | _, _ => None
+      end
+  | GEq a b =>
+      match runtimeValue a, runtimeValue b with
+      | Some x, Some y => Some (Bool.eqb x y)
+      | _, _ => None
+      end
+  | GNe a b =>
+      match runtimeValue a, runtimeValue b with
+      | Some x, Some y => Some (negb (Bool.eqb x y))
+      | _, _ => None
+      end
   end.
 
+Definition is_value (v : option bool) (b : bool) : bool :=
+  match v with Some x => Bool.eqb x b | None => false end.
+
+(* isTypeCheckingCondition: mentions TYPE_CHECKING and is certainly false at run time *)
+Definition isTypeCheckingCondition (e : gexpr) : bool := containsTypeChecking e && is_value (runtimeValue e) false.
+
+(* isNotTypeCheckingCondition: mentions TYPE_CHECKING and is certainly true at run time *)
+Definition isNotTypeCheckingCondition (e : gexpr) : bool := containsTypeChecking e && is_value (runtimeValue e) true.
+
+(* walkStatements: the body of `if e:` / `elif e:` is type-checking-only iff isTypeCheckingCondition e, the elif /
+   else branches are iff isNotTypeCheckingCondition e *)
 Definition model_tc (e : gexpr) : bool := isTypeCheckingCondition e.
+Definition model_tc_else (e : gexpr) : bool := isNotTypeCheckingCondition e.
 
 (* the analyser and Python agree about the body of `if e:` *)
 Definition guard_agrees (e : gexpr) : bool := Bool.eqb (model_tc e) (spec_tc e).
+
+(* no name other than TYPE_CHECKING occurs: the value at run time is determined by the text *)
+Fixpoint flag_free (e : gexpr) : bool :=
+  match e with
+  | GTc | GTcAttr | GConst _ => true
+  | GFlag _ => false
+  | GNot a => flag_free a
+  | GAnd a b | GOr a b | GEq a b | GNe a b => flag_free a && flag_free b
+  end.
+
+(* the same condition with other values of the unknown names *)
+Fixpoint same_shape (e f : gexpr) : bool :=
+  match e, f with
+  | GTc, GTc | GTcAttr, GTcAttr | GFlag _, GFlag _ => true
+  | GConst a, GConst b => Bool.eqb a b
+  | GNot a, GNot b => same_shape a b
+  | GAnd a1 a2, GAnd b1 b2 | GOr a1 a2, GOr b1 b2 | GEq a1 a2, GEq b1 b2 | GNe a1 a2, GNe b1 b2 =>
+      same_shape a1 b1 && same_shape a2 b2
+  | _, _ => false
+  end.
 
 (* conditions that are false at run time because TYPE_CHECKING is: the name, the attribute and conjunctions
    with such a condition on either side *)
@@ -65,6 +130,82 @@ Fixpoint tc_conjunction (e : gexpr) : bool :=
   end.
 
 (* ---- proofs -------------------------------------------------------------------------------------- *)
+
+(* the three-valued evaluation is sound: a decided value is the value at run time, whatever the other names are *)
+Lemma runtimeValue_sound : forall e v, runtimeValue e = Some v -> eval_guard e = v.
+Proof.
+  induction e; simpl; intros v H; try congruence.
+  - destruct (runtimeValue e) as [x|]; try discriminate. inversion H; subst. rewrite (IHe x eq_refl). reflexivity.
+  - destruct (runtimeValue e1) as [[|]|] eqn:E1; destruct (runtimeValue e2) as [[|]|] eqn:E2; inversion H; subst;
+      try rewrite (IHe1 _ eq_refl); try rewrite (IHe2 _ eq_refl); try reflexivity; apply andb_false_r.
+  - destruct (runtimeValue e1) as [[|]|] eqn:E1; destruct (runtimeValue e2) as [[|]|] eqn:E2; inversion H; subst;
+      try rewrite (IHe1 _ eq_refl); try rewrite (IHe2 _ eq_refl); try reflexivity; apply orb_true_r.
+  - destruct (runtimeValue e1) as [x|]; destruct (runtimeValue e2) as [y|]; inversion H; subst.
+    rewrite (IHe1 x eq_refl), (IHe2 y eq_refl). reflexivity.
+  - destruct (runtimeValue e1) as [x|]; destruct (runtimeValue e2) as [y|]; inversion H; subst.
+    rewrite (IHe1 x eq_refl), (IHe2 y eq_refl). reflexivity.
+Qed.
+
+(* it does not look at the values of the other names *)
+Lemma runtimeValue_shape : forall e f, same_shape e f = true -> runtimeValue e = runtimeValue f.
+Proof.
+  induction e; destruct f; simpl; intros H; try discriminate; try reflexivity.
+  - apply eqb_prop in H. subst. reflexivity.
+  - rewrite (IHe f H). reflexivity.
+  - apply andb_true_iff in H. destruct H as [H1 H2]. rewrite (IHe1 _ H1), (IHe2 _ H2). reflexivity.
+  - apply andb_true_iff in H. destruct H as [H1 H2]. rewrite (IHe1 _ H1), (IHe2 _ H2). reflexivity.
+  - apply andb_true_iff in H. destruct H as [H1 H2]. rewrite (IHe1 _ H1), (IHe2 _ H2). reflexivity.
+  - apply andb_true_iff in H. destruct H as [H1 H2]. rewrite (IHe1 _ H1), (IHe2 _ H2). reflexivity.
+Qed.
+
+(* without other names it decides every condition *)
+Lemma runtimeValue_complete : forall e, flag_free e = true -> runtimeValue e = Some (eval_guard e).
+Proof.
+  induction e; simpl; intros H; try discriminate; try reflexivity.
+  - rewrite (IHe H). reflexivity.
+  - apply andb_true_iff in H. destruct H as [H1 H2]. rewrite (IHe1 H1), (IHe2 H2).
+    destruct (eval_guard e1), (eval_guard e2); reflexivity.
+  - apply andb_true_iff in H. destruct H as [H1 H2]. rewrite (IHe1 H1), (IHe2 H2).
+    destruct (eval_guard e1), (eval_guard e2); reflexivity.
+  - apply andb_true_iff in H. destruct H as [H1 H2]. rewrite (IHe1 H1), (IHe2 H2). reflexivity.
+  - apply andb_true_iff in H. destruct H as [H1 H2]. rewrite (IHe1 H1), (IHe2 H2). reflexivity.
+Qed.
+
+Lemma is_value_some : forall v b, is_value v b = true -> v = Some b.
+Proof. intros [x|] b H; simpl in H; try discriminate. apply eqb_prop in H. subst. reflexivity. Qed.
+
+(* SOUNDNESS, every condition, every value of the other names: a branch the analyser takes for type-checking-only
+   is never executed (no runtime import is lost) *)
+Lemma guard_sound : forall e, (model_tc e = true -> spec_tc e = true) /\ (model_tc_else e = true -> spec_tc_else e = true).
+Proof.
+  intros e. unfold model_tc, model_tc_else, isTypeCheckingCondition, isNotTypeCheckingCondition, spec_tc, spec_tc_else.
+  split; intros H; apply andb_true_iff in H; destruct H as [_ H]; apply is_value_some in H;
+    rewrite (runtimeValue_sound e _ H); reflexivity.
+Qed.
+
+(* EXACTNESS: a condition over TYPE_CHECKING and literals only, mentioning TYPE_CHECKING, is read as Python runs it *)
+Lemma guard_exact : forall e, flag_free e = true -> containsTypeChecking e = true ->
+  model_tc e = spec_tc e /\ model_tc_else e = spec_tc_else e.
+Proof.
+  intros e Hf Hc. unfold model_tc, model_tc_else, isTypeCheckingCondition, isNotTypeCheckingCondition, spec_tc, spec_tc_else.
+  rewrite Hc, (runtimeValue_complete e Hf). simpl. destruct (eval_guard e); split; reflexivity.
+Qed.
+
+Lemma contains_shape : forall e f, same_shape e f = true -> containsTypeChecking e = containsTypeChecking f.
+Proof.
+  induction e; destruct f; simpl; intros H; try discriminate; try reflexivity; auto;
+    apply andb_true_iff in H; destruct H as [H1 H2]; rewrite (IHe1 _ H1), (IHe2 _ H2); reflexivity.
+Qed.
+
+(* the analyser's answer is the same for every value of the other names; when it is "runtime code" for both branches
+   although one of them is dead, another value of these names makes that branch run: no static reading does better *)
+Lemma guard_shape : forall e f, same_shape e f = true -> model_tc e = model_tc f /\ model_tc_else e = model_tc_else f.
+Proof.
+  intros e f H. unfold model_tc, model_tc_else, isTypeCheckingCondition, isNotTypeCheckingCondition.
+  rewrite (runtimeValue_shape e f H).
+  rewrite (contains_shape e f H). split; reflexivity.
+Qed.
+
 Lemma tc_conjunction_contains : forall e, tc_conjunction e = true -> containsTypeChecking e = true.
 Proof.
   induction e; simpl; intros H; try discriminate; auto.
@@ -79,32 +220,36 @@ Proof.
   - rewrite (IHe2 H). apply andb_false_r.
 Qed.
 
-(* `if TYPE_CHECKING:`, `if typing.TYPE_CHECKING:` and every conjunction with one of them: never executed,
-   and recognised *)
+Lemma tc_conjunction_value : forall e, tc_conjunction e = true -> runtimeValue e = Some false.
+Proof.
+  induction e; simpl; intros H; try discriminate; auto.
+  apply orb_true_iff in H. destruct H as [H | H].
+  - rewrite (IHe1 H). reflexivity.
+  - rewrite (IHe2 H). destruct (runtimeValue e1) as [[|]|]; reflexivity.
+Qed.
+
+(* `if TYPE_CHECKING:`, `if typing.TYPE_CHECKING:` and every conjunction with one of them, whatever the other operand
+   is: never executed, and recognised *)
 Lemma tc_conjunction_agrees : forall e, tc_conjunction e = true -> model_tc e = true /\ spec_tc e = true.
 Proof.
   intros e H. split.
-  - destruct e; simpl in *; try discriminate; auto.
-    apply orb_true_iff in H. apply orb_true_iff.
-    destruct H; [left | right]; apply tc_conjunction_contains; assumption.
+  - unfold model_tc, isTypeCheckingCondition. rewrite (tc_conjunction_contains e H), (tc_conjunction_value e H). reflexivity.
   - unfold spec_tc. rewrite (tc_conjunction_false e H). reflexivity.
 Qed.
 
-(* conditions that do not mention TYPE_CHECKING are never taken for type-checking guards *)
-Lemma no_tc_not_guard : forall e, containsTypeChecking e = false -> model_tc e = false.
-Proof. destruct e; simpl; intros H; try discriminate; auto. Qed.
+(* conditions that do not mention TYPE_CHECKING are never taken for type-checking guards, in either direction *)
+Lemma no_tc_not_guard : forall e, containsTypeChecking e = false -> model_tc e = false /\ model_tc_else e = false.
+Proof. intros e H. unfold model_tc, model_tc_else, isTypeCheckingCondition, isNotTypeCheckingCondition. rewrite H. split; reflexivity. Qed.
 
-(* `if not <anything>:` is always taken for runtime code *)
-Lemma not_is_runtime : forall e, model_tc (GNot e) = false.
-Proof. reflexivity. Qed.
-
-(* the full statement "model_tc e = spec_tc e for every condition" is false: a disjunction or a comparison
-   that mentions TYPE_CHECKING can be true at run time, and a negated conjunction is executed *)
-Lemma guard_refuted_or : model_tc (GOr GTc (GFlag true)) = true /\ spec_tc (GOr GTc (GFlag true)) = false.
-Proof. split; reflexivity. Qed.
-
-Lemma guard_refuted_compare : model_tc (GEq GTc (GFlag false)) = true /\ spec_tc (GEq GTc (GFlag false)) = false.
-Proof. split; reflexivity. Qed.
-
-Lemma guard_refuted_not : model_tc (GNot (GNot GTc)) = false /\ spec_tc (GNot (GNot GTc)) = true.
-Proof. split; reflexivity. Qed.
+(* the inputs that exposed F63, now read as Python runs them: `TYPE_CHECKING or X`, `not TYPE_CHECKING and X`,
+   `TYPE_CHECKING == False`, `TYPE_CHECKING is not True`, `not TYPE_CHECKING` (whose else branch is type-checking-only),
+   `not not TYPE_CHECKING` *)
+Lemma guard_repaired_witnesses :
+  (forall x, model_tc (GOr GTc (GFlag x)) = false /\ model_tc_else (GOr GTc (GFlag x)) = false) /\
+  (forall x, model_tc (GAnd (GNot GTc) (GFlag x)) = false /\ model_tc_else (GAnd (GNot GTc) (GFlag x)) = false) /\
+  (model_tc (GEq GTc (GConst false)) = false /\ spec_tc (GEq GTc (GConst false)) = false /\ model_tc_else (GEq GTc (GConst false)) = true) /\
+  (model_tc (GNe GTcAttr (GConst true)) = false /\ spec_tc (GNe GTcAttr (GConst true)) = false) /\
+  (model_tc (GNot GTc) = false /\ model_tc_else (GNot GTc) = true /\ spec_tc_else (GNot GTc) = true) /\
+  (model_tc (GNot (GNot GTc)) = true /\ spec_tc (GNot (GNot GTc)) = true) /\
+  (model_tc (GOr GTc (GConst true)) = false /\ model_tc_else (GOr GTc (GConst true)) = true).
+Proof. repeat split; reflexivity. Qed.
